@@ -95,6 +95,38 @@ def table_inputs():
     return out
 
 
+WRAPPERS = ["%s", "{{a|%s}}", "{{a|k=%s}}", "{{%s|x}}", "{{a|%s=v}}", "{{{a|%s}}}", "{{{%s}}}", "[[a|%s]]", "[[%s]]", "== %s ==", "\n== %s ==\n",
+            "{|\n| %s\n|}", "{|\n| %s || z\n|}", "{|\n! %s !! z\n|}", "{| %s\n|a\n|}", "{|\n|+ %s\n|}", "{|\n|- %s\n|a\n|}", "{|\n| s=1 | %s\n|}",
+            "<b>%s</b>", "<ref name=a>%s</ref>", "<span a=\"%s\">x</span>", "<span %s>x</span>", "<span a=%s>x</span>", "<nowiki>%s</nowiki>",
+            "\'\'%s\'\'", "\'\'\'%s\'\'\'", "\'\'\'\'\'%s\'\'\'\'\'", "[http://x.y %s]", "[http://x.y/%s z]", "http://x.y/%s",
+            "* %s\n", "\n# %s\n", "; %s : z\n", "\n: %s\n", "<!-- %s -->", "&%s;", "<li>%s", "%s\n----\n", "{{a|\n%s\n|b}}"]
+ATOMS = ["x", "", " ", "\n", "x y", "{{t}}", "{{t|a|b=c}}", "{{t|\n a = 1\n}}", "{{{1}}}", "{{{1|d}}}", "[[l]]", "[[l|t]]", "[[File:x.png|thumb|c]]",
+         "[http://u.v t]", "[http://u.v]", "http://u.v/w", "mailto:a@b.c", "[//u.v t]", "\n== h ==\n", "==h==", "=h=", "<!--c-->", "&amp;", "&#65;", "&#x41;",
+         "&nosuch;", "&#xZZ;", "&", "<i>y</i>", "<br/>", "<br>", "<hr>", "</br>", "<nowiki>{{n}}</nowiki>", "<ref name=\"r\">q</ref>", "<ref name=r />",
+         "<b>", "</b>", "<i", "<i a", "< b>", "\'\'y\'\'", "\'\'\'y\'\'\'", "\'\'", "\'\'\'", "\'\'\'\'\'y", "\n* i\n", "\n; t : d\n", "\n----\n", "\n:::x\n",
+         "{|\n| a || b\n|-\n! h\n|}", "{|\n|}", "{|", "|}", "\n|-\n", "\n| c\n", "||", "!!", "|", "=", "==", ":", ";", "{{", "}}", "{{{", "}}}", "[[", "]]", "[", "]",
+         "{", "}", "<", ">", "<!--", "-->", "{{t", "{{t|", "[[l", "[[l|", "[http://u.v", "{{{1", "{{t}}{{u}}", "{{t|{{u}}}}", "[[l|{{t}}]]", "{{t|[[l]]}}",
+         "\u65e5\u672c", "\U0001d4b3", "a\x00b", "\u00a0", "&#x1F600;", "x\n\ny", "<pre>\n p\n</pre>", "<math>a<b</math>", "__TOC__", "~~~~", "#REDIRECT [[r]]"]
+
+
+def nesting_inputs(tier, seed):
+    """every construct inside every construct (all pairs, in four positions), and triples: a sample in the quick tier, all in the thorough one"""
+    out = []
+    for w in WRAPPERS:
+        for a in ATOMS:
+            out += [w % a, w % ("p" + a), w % (a + "q"), w % (a + a)]
+    rng = random.Random(seed * 31 + 7)
+    triples = [(w1, w2, a) for w1 in WRAPPERS for w2 in WRAPPERS for a in ATOMS]
+    if tier == "quick":
+        triples = rng.sample(triples, 6000)
+    for w1, w2, a in triples:
+        try:
+            out.append(w1 % (w2 % a))
+        except (TypeError, ValueError):
+            pass
+    return out
+
+
 WITH_BUILDER = [False]
 
 
@@ -117,6 +149,8 @@ def make_inputs(tier, seed, n_quick=60000, n_thorough=3000000):
             items.append((t, 0, True))
         if rng.random() < 0.1:
             items.append((t, st["uri"], False))
+    for t in nesting_inputs(tier, seed):
+        items.append((t, 0, rng.random() < 0.2))
     n = n_quick if tier == "quick" else n_thorough
     for _ in range(n):
         size = "small" if (tier == "quick" or rng.random() < 0.7) else "large"
